@@ -58,6 +58,23 @@ def run(tier, res, replay=None):
             c, tn = base(random.Random(rng.randrange(1 << 30)))
             items.append((f'{base.__name__[5:]}/valid#{k}', c, tn, [], {},
                           None))
+    # valid inputs of the scenario lattice (every model option at least
+    # once): accepted inputs must set up and sweep
+    from harness import scenarios
+    for lab_, c in scenarios.single_lattice(random.Random(1), 'quick'):
+        if lab_.startswith('opt-') or lab_ in ('multi-convfactor',
+                                               'lowfi-6node',
+                                               'rod3-wirecw-mit',
+                                               'rod2-3duct'):
+            items.append((f'lattice/{lab_}', c, 'a1', [], {}, None))
+    # options that are accepted but not supported must be refused by the
+    # reader, not fail later
+    c, tn = guard.base_rich(random.Random(2))
+    c['types'][tn]['bypass_gap_loss_coeff'] = 2.5
+    items.append(('rich/option-bypass-loss-coeff', c, tn, [], {}, None))
+    c, tn = guard.base_single(random.Random(2))
+    c['types'][tn]['dummy_pin'] = [1, 4]
+    items.append(('single/option-dummy-pin', c, tn, [], {}, None))
     tmo = 90 if tier == 'quick' else 300
     jobs = [it + (rng.randrange(1 << 30), tmo) for it in items]
     if replay:
